@@ -1089,9 +1089,9 @@ def run(ctx):
     if ctx.replay:
         cases = [json.load(open(ctx.replay))['case']]
     else:
-        cases += [gen_upd(rng) for _ in range(ctx.scale(120, 3000))]
-        cases += [gen_pen(rng) for _ in range(ctx.scale(120, 3000))]
-        cases += [gen_decision(rng) for _ in range(ctx.scale(200, 4000))]
+        cases += [gen_upd(rng) for _ in range(ctx.scale(120, 2000))]
+        cases += [gen_pen(rng) for _ in range(ctx.scale(120, 2000))]
+        cases += [gen_decision(rng) for _ in range(ctx.scale(200, 2500))]
     terms, meta = [], []
     dec = [c for c in cases if c['kind'] == 'decision']
     driven = {}
